@@ -746,3 +746,37 @@ def t6(chk, prog):
                 else:
                     chk.instance(R, desc + ': no creation/clearing statement found', 'undecided')
     return n
+
+
+def t7(chk, prog):
+    """the bootstrap driver runs its iterations in batches of `nthreads` workers, so it executes ceil(iterations/nthreads)*nthreads
+    iterations: the result is independent of the thread count only when the count divides the iteration count (the property's own
+    proviso).  An internal call that fixes the iteration count must therefore fix a thread count that divides it -- forwarding the
+    caller's thread count makes a hidden iteration count depend on it."""
+    R = chk.rule('T7.batch-divides', 'every library-internal call of BootstrapRandomGroupsCV with a literal iteration count passes a literal thread count '
+                 'that divides it (the batch loop runs whole batches: a non-dividing count executes extra iterations)')
+    n = 0
+    for f in prog.all_funcs():
+        if f.body is None:
+            continue
+        for cn, node in f.calls:
+            if cn != 'BootstrapRandomGroupsCV':
+                continue
+            a = call_args(node)
+            if len(a) < 7:
+                continue
+            it, th = fe.int_value(a[2]), fe.int_value(a[6])
+            if it is None:
+                continue            # the caller's own iteration count: the proviso is the caller's
+            n += 1
+            desc = '%s %s: BootstrapRandomGroupsCV(..., iterations = %d, ..., nthreads = %s)' % (f.unit.where(node), f.name, it, f.unit.text(a[6])[:20])
+            if th is not None and th > 0 and it % th == 0:
+                chk.instance(R, desc + ': %d divides %d' % (th, it))
+            else:
+                chk.instance(R, desc, 'refuted')
+                chk.violation(Finding('T7.batch-divides', rel(f.file), f.name, 'bootstrap:%d' % it, f.unit.where(node),
+                                      '%s runs an internal bootstrap validation with a fixed %d iterations but a thread count of `%s`: the driver '
+                                      'executes whole batches of that many workers, so for a count that does not divide %d it runs extra iterations '
+                                      'and the averaged predictions (q2 of the scrambled models) depend on the number of threads requested'
+                                      % (f.name, it, f.unit.text(a[6])[:20], it)))
+    return n
